@@ -85,7 +85,8 @@ func Itoa(i int) string { return "a" }
 `,
 		"ext/b/conv/conv.go": `package conv
 
-func Itoa(i int) string { return "b" }
+// Same package name as ext/a/conv, but no Itoa: which of the two a blank import makes reachable matters.
+func Other(i int) string { return "b" }
 `,
 		"ext/dmodel/model.go": `package model
 
